@@ -671,20 +671,26 @@ def check_pairs(prop, tier):
     return R.finish()
 
 
-META_LEMMA = {'C07': ('TieIndependent', 'C07e'), 'C10': ('PresentationIndependent', 'C10'), 'C11': ('Neutral', 'C11a')}
+META_LEMMA = {'C07': [('TieIndependent', 'C07e', {})], 'C10': [('PresentationIndependent', 'C10', {})],
+              'C11': [('Neutral', 'C11a', {}), ('WithdrawnAbsent', 'C11b', dict(nc=4, ties=[(1, 2, 3, 4), (4, 2, 1, 3)], wds=((2,), (4,), (1, 3))))]}
 
 
 def model_meta_stage(R, prop, tier):
+    for lemma, rel, over in META_LEMMA[prop]:
+        model_meta_lemma(R, prop, tier, lemma, rel, over)
+
+
+def model_meta_lemma(R, prop, tier, lemma, rel, over):
     """
     (M) the metamorphic lemma at design level: the specification's count as a function (`Run') is evaluated on both members of
     every pair of the bounded scope inside one TLC invariant.  A counterexample is replayed into the real code as a pair.
     """
-    lemma, rel = META_LEMMA[prop]
     cfgs = [model.STATUTORY_CFG['wigm-prf'], model.STATUTORY_CFG['scotland'], model.STATUTORY_CFG['cfer-batch'], model.STATUTORY_CFG['mpls'],
             model.cfgrec('meek', p=3, omega10=2, batch='safe'), model.cfgrec('qpq', kind='guarded', p=3, g=2)]
     if tier == 'thorough':
         cfgs = model_configs()
     sc = dict(nc=3, maxb=3 if tier == 'quick' else 4, maxm=2, seatset=(1, 2), ties=[(1, 2, 3), (3, 1, 2)])
+    sc.update(over)
     res = model.mc_run(cfgs, check=[], lemmas=[lemma], timeout=600 if tier == 'quick' else 3000, **sc)
     R.add_tlc(res)
     iv = model.invariant_violation(res['out'])
